@@ -38,6 +38,10 @@ def wrapping(F, ctx):
     return out
 
 
+def agg_(adt, variant, vi):
+    return absint.agg(adt, variant, vi, ())
+
+
 def run(ctx):
     _run(ctx)
     ctx.delegate("C07", ["C07.progress"], "C06.resync",
@@ -186,6 +190,14 @@ def _run(ctx):
             stcalls = [e for e in p.eff if e[0] == 'call' and e[1] == 'record::HasShapeType::shapetype']
             # the equality atom: discr(ShapeType::name) == discr(S::shapetype())
             eqs = [(t, v) for t, v in p.cons if t[0] == 'bin' and t[1] in ('Eq', 'Ne')]
+            # the same test recorded as a constraint on the discriminant of S::shapetype() (comparison with a known variant)
+            for t, v in p.cons:
+                if t[0] == 'discr' and any(t[1] == s_[-1] for s_ in stcalls):
+                    k_ = st_codes.get(name)       # ShapeType's discriminants are the ESRI codes
+                    if v == k_:
+                        eqs.append((('bin', 'Eq', agg_('ShapeType', name, k_), t[1], 'partial_eq'), 1))
+                    elif isinstance(v, tuple) and k_ in v[1]:
+                        eqs.append((('bin', 'Eq', agg_('ShapeType', name, k_), t[1], 'partial_eq'), 0))
             if reader:
                 n_match += 1
                 # reached only under the equality of the code read with Self::shapetype()
@@ -206,7 +218,7 @@ def _run(ctx):
             elif any(t[0] == 'discr' and t[1][0] == 'checked' and v == 0 and not absint.contains(t[1], code_term)
                      for t, v in p.cons) and is_agg(p.ret, None, 'Err') and \
                     any(t[0] == 'bin' and t[1] in ('Eq', 'Ne') and ((v != 0) == (t[1] == 'Eq'))
-                        for t, v in ((t, 1 if v == ('not', (0,)) else v) for t, v in p.cons) if isinstance(v, int)):
+                        for t, v in ((t, 1 if v == ('not', (0,)) else v) for t, v in eqs) if isinstance(v, int)):
                 # the types match and a checked size computation failed: an error, nothing decoded
                 ctx.ob("C06.typed", "size guard (%s)" % name, True, "types equal, size computation overflows -> error",
                        site=ctx.site_of(F, f["def"]), trivial=True)
